@@ -37,7 +37,7 @@ REG = dict(
           "running and no callback may start before the worker re-arms the event; ticket, byte and evbuffer-length conservation; "
           "after a serviced wake-up with nothing else posted the loop must block again (a prepare watcher counts iterations over a "
           "quiet period: at most 50) and event_base_loop(EVLOOP_NONBLOCK) run after the cross-thread traffic must return; "
-          "every ThreadSanitizer report with a library frame is a violation."),
+          "one slot kind adds the first EV_WRITE event to an fd that already carries a registered reader (backends that keep the interest set in user space must be woken for it); every ThreadSanitizer report with a library frame is a violation."),
     note=("Schedules are sampled, not enumerated; a race that needs a window the delay injection does not open can be missed. The "
           "lost-wakeup verdict needs the 15 s watchdog to fire twice for the same case (re-run), all other verdicts are logical. "
           "event_priority_set and other calls not named by the property are not exercised cross-thread. TSan reports without any "
